@@ -1,32 +1,50 @@
-import FstVerif.Model.Sink
+import FstVerif.Proofs.Sink
 /-
-C11 — I/O failures surface as errors. (`C11_fault` over whole call histories is
-assembled from Proofs/Sink.lean; here: the `write_all` step facts.)
+C11 — I/O failures surface as errors, never as panics or silent success.
+Statements here; proofs in Proofs/Sink.lean. A failing response is `take 0`
+(Ok(0)) or `fail k` (any error other than Interrupted).
 -/
-namespace Fst
+namespace Fst.Props
+open Fst Fst.SinkProofs
 
-/-- a zero-length write makes `write_all` fail with WriteZero -/
-theorem C11_write_zero {W : Type} (write : W → List UInt8 → W × Except IoErr Nat)
-    (fuel : Nat) (w w' : W) (b : UInt8) (bs : List UInt8) (h : write w (b :: bs) = (w', .ok 0)) :
-    writeAllWith write (fuel + 1) w (b :: bs) = some (w', .error .writeZero) := by
-  simp [writeAllWith, h]
+/-- if the sink served a failing response during an `insert`/`add` (for any
+script before it, incl. short writes and Interrupted), that call returns Err(Io) -/
+theorem C11_fault_call (x : IOB) (r : Except BErr BState) (used : List Resp)
+    (hu : x.cw.sink.script = used ++ (x.step r).1.cw.sink.script)
+    (bad : Resp) (hmem : bad ∈ used) (hbad : Bad bad) :
+    ∃ e, (x.step r).2 = .error (.io e) := C11_fault_step x r used hu bad hmem hbad
 
-/-- an error other than Interrupted is returned at once -/
-theorem C11_write_error {W : Type} (write : W → List UInt8 → W × Except IoErr Nat)
-    (fuel : Nat) (w w' : W) (b : UInt8) (bs : List UInt8) (k : Nat)
-    (h : write w (b :: bs) = (w', .error (.other (k + 1)))) :
-    writeAllWith write (fuel + 1) w (b :: bs) = some (w', .error (.other (k + 1))) := by
-  simp [writeAllWith, h]
+/-- the same for `finish`/`into_inner` -/
+theorem C11_fault_finish (x : IOB) (used : List Resp)
+    (hu : x.cw.sink.script = used ++ x.intoInner.1.script)
+    (bad : Resp) (hmem : bad ∈ used) (hbad : Bad bad) :
+    ∃ e, x.intoInner.2 = .error (.io e) := C11_fault_intoInner x used hu bad hmem hbad
 
-/-- the first failing buffer stops the sequence: later buffers are not written -/
-theorem C11_chunks_stop (c c' : CW) (b : List UInt8) (bs : List (List UInt8)) (e : IoErr)
-    (h : c.writeAll b = (c', .error e)) : c.writeChunks (b :: bs) = (c', .error e) := by
-  simp [CW.writeChunks, h]
+/-- the error reported is the first failure; everything served before it was benign -/
+theorem C11_first_fault (c : CW) (chunks : List (List UInt8)) (e : IoErr)
+    (h : (c.writeChunks chunks).2 = .error e) :
+    ∃ good bad, c.sink.script = good ++ bad :: (c.writeChunks chunks).1.sink.script ∧
+      Benign good ∧ Bad bad ∧ e = errOf bad := C11_fault_kind c chunks e h
 
-/-- an I/O error during a step is reported as `Err(Io)` -/
-theorem C11_step_io (x : IOB) (b' : BState) (cw : CW) (e : IoErr)
-    (h : x.cw.writeChunks (newChunks x.b b') = (cw, .error e)) :
-    (x.step (.ok b')).2 = .error (.io e) := by
-  simp [IOB.step, h]
+/-- no build is reported as finished unless every byte was accepted and the flush succeeded -/
+theorem C11_finish_ok_only_if (x : IOB) (s : Sink) (h : x.intoInner = (s, .ok ())) :
+    ∃ used b' root, x.cw.sink.script = used ++ s.script ∧ Benign used ∧
+      s.flushFails = none ∧ x.b.finish = .ok (b', root) ∧
+      (ChunkLaw → s.held = x.cw.sink.held ++ (tailBytes x b' root).toArray) :=
+  Fst.SinkProofs.C11_finish_ok_only_if x s h
 
-end Fst
+/-- the model has no panic outcome on the I/O path: a step's result is ok, an
+ordering error of the pure builder, or Err(Io) -/
+theorem C11_step_outcomes (x : IOB) (r : Except BErr BState) :
+    (x.step r).2 = .ok () ∨ (∃ e, (x.step r).2 = .error (.fst e)) ∨ (∃ e, (x.step r).2 = .error (.io e)) := by
+  cases r with
+  | error e => exact Or.inr (Or.inl ⟨e, rfl⟩)
+  | ok b' =>
+    simp only [IOB.step]
+    cases h : x.cw.writeChunks (newChunks x.b b') with
+    | mk cw res =>
+      cases res with
+      | ok u => cases u; exact Or.inl rfl
+      | error e => exact Or.inr (Or.inr ⟨e, rfl⟩)
+
+end Fst.Props
